@@ -244,6 +244,7 @@ namespace cow { Value run(const Value& script); }
 #include "hist_neigh.hpp"
 #include "hist_copy.hpp"
 #include "hist_modeledit.hpp"
+#include "hist_redefine.hpp"
 
 int main(int argc, char** argv)
 {
@@ -270,6 +271,7 @@ int main(int argc, char** argv)
     else if (mode == "neighmemo") obs = nm::run(sc);
     else if (mode == "copy") obs = cp::run(sc);
     else if (mode == "modeledit") obs = me::run(sc);
+    else if (mode == "redefine") obs = rd::run(sc);
     else return 2;
     Value rec = Value::object();
     rec["idx"] = Value(is);
